@@ -378,7 +378,51 @@ func (ex *Exec) siteOf(ins ssa.Instruction, extra string) string {
 
 func (ex *Exec) cellFor(a *ssa.Alloc) *Cell {
 	ex.cellID++
-	return &Cell{Name: a.Comment, Typ: a.Type().(*types.Pointer).Elem(), ID: ex.cellID, Escape: a.Heap}
+	return &Cell{Name: a.Comment, Typ: a.Type().(*types.Pointer).Elem(), ID: ex.cellID, Escape: a.Heap && allocEscapes(a)}
+}
+
+// allocEscapes: can code outside the allocating function's own instructions write the variable? go/ssa marks a local as
+// heap-allocated as soon as a closure captures it; if every capturing closure (transitively) only reads it and its address
+// goes nowhere else, no callee can change it and it keeps its value across calls.
+func allocEscapes(a *ssa.Alloc) bool {
+	var refs func(v ssa.Value, depth int) bool
+	refs = func(v ssa.Value, depth int) bool {
+		if depth > 4 || v.Referrers() == nil {
+			return true
+		}
+		for _, r := range *v.Referrers() {
+			switch x := r.(type) {
+			case *ssa.DebugRef:
+			case *ssa.UnOp:
+				if x.Op != token.MUL || x.X != v {
+					return true
+				}
+			case *ssa.Store:
+				if x.Addr != v || x.Val == v {
+					return true
+				}
+				if depth > 0 {
+					return true // a closure assigns the captured variable
+				}
+			case *ssa.MakeClosure:
+				fn, ok := x.Fn.(*ssa.Function)
+				if !ok {
+					return true
+				}
+				for i, b := range x.Bindings {
+					if b == v {
+						if i >= len(fn.FreeVars) || refs(fn.FreeVars[i], depth+1) {
+							return true
+						}
+					}
+				}
+			default:
+				return true
+			}
+		}
+		return false
+	}
+	return refs(a, 0)
 }
 
 func (ex *Exec) newFrame(fn *ssa.Function, args []Val, free []Val) *Frame {
